@@ -925,6 +925,49 @@ def d_cases(chk):
     return cases, nst
 
 
+# an identifier supplied by an object-like macro in every syntactic role, used two and three times: the compiler proper must not free or
+# modify the spelling it shares with the macro's replacement list (defects 98/99: designators freed it, attributes truncated it)
+ROLE_UNITS = [
+    ('member-designator', 'm', 'struct S { int k; int m; }; struct S a = { .@ = 1 }; struct S b = { .@ = 2 }; struct S c = { .k = 3, .@ = 4 };'),
+    ('nested-designator', 'm', 'struct S { int k; struct { int j, m; } in; }; struct S a = { .in.@ = 1 }; struct S b = { .in.@ = 2, .k = 1 };'),
+    ('offsetof-member', 'm', 'struct S { int k; int m[3]; }; unsigned long a = __builtin_offsetof(struct S, @); unsigned long b = __builtin_offsetof(struct S, @[2]); unsigned long c = __builtin_offsetof(struct S, @);'),
+    ('offsetof-nested-member', 'm', 'struct S { int k; struct { int j, m; } in; }; unsigned long a = __builtin_offsetof(struct S, in.@); unsigned long b = __builtin_offsetof(struct S, in.@);'),
+    ('c23-attribute', '__packed__', 'struct [[gnu::@]] A { char c; int i; }; struct [[gnu::@]] B { char c; int i; }; struct [[gnu::@]] C { char c; long l; }; int a = sizeof(struct A), b = sizeof(struct B), c = sizeof(struct C);'),
+    ('c23-attribute-prefix', '__gnu__', 'struct [[@::packed]] A { char c; int i; }; struct [[@::packed]] B { char c; int i; }; int a = sizeof(struct A), b = sizeof(struct B);'),
+    ('gnu-attribute', '__packed__', 'struct __attribute__((@)) A { char c; int i; }; struct __attribute__((@)) B { char c; int i; }; int a = sizeof(struct A), b = sizeof(struct B);'),
+    ('member-access', 'm', 'struct S { int k; int m; } v, *p; int f(void) { return v.@ + p->@ + v.@; }'),
+    ('label', 'out', 'int f(int n) { if (n) goto @; n++; @: if (n > 5) return n; n += 2; goto @; }'),
+    ('tag', 'node', 'struct @ { struct @ *next; int v; }; struct @ head; int f(struct @ *p) { return p->next->v; }'),
+    ('enumerator', 'RED', 'enum { @ = 4, GREEN = @ + 1 }; int a = @, b[@];'),
+    ('typedef-name', 'num', 'typedef long @; @ a = 1; @ f(@ x) { return x + (@)2; }'),
+    ('function-name', 'fn', 'int @(int); int g(void) { return @(1) + @(2); } int @(int x) { return x; }'),
+    ('parameter-name', 'arg', 'int f(int @) { return @ * @; }'),
+    ('macro-in-macro', 'm', 'struct S { int k; int m; }; struct S a = { .@ = 1 }; unsigned long o = __builtin_offsetof(struct S, @); struct S b = { .@ = 2 }; int f(struct S *p) { return p->@; }'),
+]
+
+
+def role_units(chk):
+    srv = fs.server('fs')
+    n = 0
+    for name, ident, tmpl in ROLE_UNITS:
+        direct = tmpl.replace('@', ident) + '\n'
+        forms = (('object-like', '#define ID_ %s\n' % ident + tmpl.replace('@', 'ID_') + '\n'),
+                 ('through-two-macros', '#define ID0_ %s\n#define ID_ ID0_\n' % ident + tmpl.replace('@', 'ID_') + '\n'),
+                 ('function-like', '#define ID_(x) x\n' + tmpl.replace('@', 'ID_(%s)' % ident) + '\n'))
+        r0 = srv.compile(direct.encode(), cpu_s=10)
+        n += 1
+        if r0.status != 0:
+            raise RuntimeError('role unit %s does not compile: %s' % (name, r0.err[:200]))
+        for fname, src in forms:
+            r = srv.compile(src.encode(), cpu_s=10)
+            n += 1
+            if r.status != 0 or r.out != r0.out:
+                chk.violation('roles/identifier-from-macro-differs/' + name, 'role %s, identifier %r supplied by a %s macro and used several times: %s' % (
+                    name, ident, fname, ('status %s: %s' % (r.status, r.err.decode(errors='replace')[:160])) if r.status else 'output differs from the unit with the identifier written out'),
+                    files={'input.c': src.encode(), 'written-out.c': direct.encode()}, cmd='$CPROC_QBE input.c > a.qbe; $CPROC_QBE written-out.c > b.qbe; cmp a.qbe b.qbe')
+    return n
+
+
 # ---------------------------------------------------------------------------
 # ASan subset
 
@@ -1097,6 +1140,7 @@ def main(chk):
     # ---- D
     d_tot = {'n': 0, 'valid': 0, 'runs': 0, 'pp_disagrees': 0}
     if chk.want('D') and not chk.expired():
+        d_tot['runs'] += role_units(chk)
         texts_for(M1_TEXT, 3)
         cases, nst = d_cases(chk)
         stats.merge(nst)
